@@ -397,7 +397,7 @@ def check_step(s, op, ctx):
     writes = op_of(op)[2]
     if op.startswith("ins_abs:"):
         facts.append("insertion_at_every_slot_of_a_long_sequence")
-    if any(isinstance(e[0], float) and e[0] != int(e[0]) for e in pre_abs[0]):
+    if any(isinstance(e[0], float) and e[0] != int(e[0]) for e in pre_abs[0] + pre_rel[0]):
         facts.append("non_integral_tick_values")
     if any(e[0] > 70000 for e in pre_abs[0]):
         facts.append("pause_of_tens_of_thousands_of_ticks")
